@@ -464,12 +464,19 @@ def cursorRange (bo : ByteOrder) (buf : List Nat) (endp : Option Nat) (dim : Dim
   groupHeader endp dim gaddr
   .ok ⟨rd bo buf (gaddr + dim.blOff) dim.blSize, 0, rd bo buf (gaddr + dim.numOff) dim.numSize⟩
 
-/-- `g.cursor_subrange(c, pos)` -/
+/-- `static_cast<size_type>(a - b)` for two values of the `w`-bit unsigned `size_type`
+    (`a - b` is computed in `int` for 8/16-bit types and converted back: modular) -/
+def subIndex (w a b : Nat) : Nat := if b ≤ a then a - b else (a + 2 ^ w - b) % 2 ^ w
+
+/-- width in bits of `size_type` (the type of `numInGroup`) -/
+def indexBits (dim : Dim) : Nat := 8 * dim.numSize
+
+/-- `g.cursor_subrange(c, pos)`; the length is `static_cast<size_type>(size() - pos)` -/
 def cursorSubrange1 (bo : ByteOrder) (buf : List Nat) (endp : Option Nat) (dim : Dim) (gaddr pos : Nat) : Out Range := do
   groupHeader endp dim gaddr
   let size := rd bo buf (gaddr + dim.numOff) dim.numSize
   if endp.isSome && !decide (pos < size) then .error .precondition
-  else .ok ⟨rd bo buf (gaddr + dim.blOff) dim.blSize, pos, size - pos⟩
+  else .ok ⟨rd bo buf (gaddr + dim.blOff) dim.blSize, pos, subIndex (indexBits dim) size pos⟩
 
 /-- `g.cursor_subrange(c, pos, count)` -/
 def cursorSubrange2 (bo : ByteOrder) (buf : List Nat) (endp : Option Nat) (dim : Dim) (gaddr pos count : Nat) : Out Range := do
@@ -500,6 +507,62 @@ def derefEntry (emptyCtor : Bool) (endp : Option Nat) (ptr : Option Nat) (bl : N
       | .error e => .error e
       | .ok () => .ok (ev, some (p + bl))
     else .ok (ev, some p)
+
+/-! ### the iterators of a cursor range, `cursor_begin` / `cursor_end`, and the `visit_children` loop
+    (hand definitions added for the method-level translator tie, `extract/methods_group.py` →
+    `Sbepp.Extracted.GroupMethods`, `Lemmas/GroupTie.lean`) -/
+
+/-- an `input_iterator` of a cursor range: position and the entries' block length
+    (the cursor it dereferences and the end pointer are the shared state `cur` / `endp`) -/
+structure InIter where
+  index : Nat
+  bl : Nat
+  deriving DecidableEq, Repr, Inhabited
+
+/-- `r.begin()`: `{start_pos, cursor, block_length, end_ptr}` -/
+def Range.begin (r : Range) : InIter := ⟨r.start, r.bl⟩
+
+/-- `r.end()`: `{static_cast<IndexType>(start_pos + size()), cursor, block_length, end_ptr}`, `w` = width of `IndexType` -/
+def Range.end_ (w : Nat) (r : Range) : InIter := ⟨(r.start + r.len) % 2 ^ w, r.bl⟩
+
+/-- `++it`: `index++` in the `w`-bit unsigned `IndexType` -/
+def InIter.inc (w : Nat) (it : InIter) : InIter := ⟨(it.index + 1) % 2 ^ w, it.bl⟩
+
+/-- `a == b`: `lhs.index == rhs.index` -/
+def InIter.eq (a b : InIter) : Bool := a.index == b.index
+
+/-- `a != b` -/
+def InIter.ne (a b : InIter) : Bool := a.index != b.index
+
+/-- `g.cursor_begin(c)` is `cursor_range(c).begin()` -/
+def cursorBegin (bo : ByteOrder) (buf : List Nat) (endp : Option Nat) (dim : Dim) (gaddr : Nat) : Out InIter := do
+  let r ← cursorRange bo buf endp dim gaddr
+  .ok r.begin
+
+/-- `g.cursor_end(c)` is `cursor_range(c).end()` -/
+def cursorEnd (bo : ByteOrder) (buf : List Nat) (endp : Option Nat) (dim : Dim) (gaddr : Nat) : Out InIter := do
+  let r ← cursorRange bo buf endp dim gaddr
+  .ok (r.end_ (indexBits dim))
+
+/-- the loop of `g(visit_children_tag, v, c)`: `n` more entries;
+    `onEntry entry cur v` is `v.on_entry(entry, c)` (result, cursor and visitor afterwards) -/
+def visitLoop {σ : Type} (emptyCtor : Bool) (endp : Option Nat) (bl : Nat)
+    (onEntry : LView → Option Nat → σ → Out (Bool × Option Nat × σ)) : Nat → Option Nat → σ → Out (Bool × Option Nat × σ)
+  | 0, c, v => .ok (false, c, v)
+  | n + 1, c, v =>
+    match derefEntry emptyCtor endp c bl with
+    | .error e => .error e
+    | .ok (ev, c') =>
+      match onEntry ev c' v with
+      | .error e => .error e
+      | .ok (r, c'', v') => if r then .ok (true, c'', v') else visitLoop emptyCtor endp bl onEntry n c'' v'
+
+/-- `g(visit_children_tag, v, c)`: `for(const auto entry : this->cursor_range(c)) if(v.on_entry(entry, c)) return true; return false;` -/
+def visitChildren {σ : Type} (emptyCtor : Bool) (bo : ByteOrder) (buf : List Nat) (endp : Option Nat) (dim : Dim) (gaddr : Nat)
+    (onEntry : LView → Option Nat → σ → Out (Bool × Option Nat × σ)) (c : Option Nat) (v : σ) :
+    Out (Bool × Option Nat × σ) := do
+  let r ← cursorRange bo buf endp dim gaddr
+  visitLoop emptyCtor endp r.bl onEntry r.len c v
 
 /-- `sbepp::init_cursor(m)`: `addressof(m) + header size` -/
 def initCursor (v : LView) : Option Nat := some v.lvl
